@@ -4,7 +4,7 @@ cd /verif
 ids=${@:-$(ls seeded)}
 for id in $ids; do
   prop=${id%%_*}
-  git -C /repo apply seeded/$id/patch.diff || { echo "$id: patch does not apply"; continue; }
+  git -C /repo apply /verif/seeded/$id/patch.diff || { echo "$id: patch does not apply"; continue; }
   s=$(date +%s)
   out=$(timeout 1200 ./vcheck $prop quick 2>&1)
   rc=$?
